@@ -68,7 +68,7 @@ w("## Appendix D — corrections to the machinery\n")
 w(open(os.path.join(V, "docs", "corrections.md")).read())
 w("## Appendix E — seeded changes and the checks that catch them\n")
 w("Each change `Cnn_a` … `Cnn_f` was produced by a fresh sub-agent that saw only the property's text and its own scratch worktree of `/repo` (four rounds: a/b early, c/d "
-  "after most repairs for all twenty properties, e/f at the end for C01, C02, C03, C10, C14, C19; a fourth round `g` for C04, C07, C08, C09, C12, C13, C16, C17, C18 — C07_g (a panic of the anchored-literal matcher when prefix and suffix literal overlap) was missed by C07 and C19 and led to the excision haystack family in both, C08_g led to new template pieces with non-ASCII digits, C16_g to the SWAR-borrow haystack family of C16; before that C16_g was reported by C18's check of the primitive only); it compiles and passes the repository's test suite. The `revert_<commit>` entries are not seeded: each is the reverse of one of the late `fix:` commits "
+  "after most repairs for all twenty properties, e/f at the end for C01, C02, C03, C10, C14, C19; a fourth round `g` for C04, C05, C07, C08, C09, C11, C12, C13, C15, C16, C17, C18, C20 — C20_g (a pooled reverse-DFA cache not returned on the success path of the reverse-inner searcher: allocations per match in Count / AppendAllIndex) is NOT yet reported by C20's quick check, an open gap described in its note; C07_g (a panic of the anchored-literal matcher when prefix and suffix literal overlap) was missed by C07 and C19 and led to the excision haystack family in both, C08_g led to new template pieces with non-ASCII digits, C16_g to the SWAR-borrow haystack family of C16; before that C16_g was reported by C18's check of the primitive only); it compiles and passes the repository's test suite. The `revert_<commit>` entries are not seeded: each is the reverse of one of the late `fix:` commits "
   "(a defect the model work or a seeding agent exposed), kept to show that the strengthened check now reports it. `tools/seedrun.sh seeded/<id> [checks]` applies a change to `/repo`, "
   "runs the property's check (and the checks named in `also_checks` of its meta.json) and restores the tree; `tools/seedall.sh` does it for all of them. Nothing here is committed to `/repo`. "
   "A change the property's own quick check missed at first led to a stronger check (notes in the last column, corrections in Appendix D); where another property's check is the one that "
